@@ -335,5 +335,14 @@ example : (solve toy 2 (0, 0)).ret = false ∧ (solve toy 2 (0, 0)).iter = 2 := 
   simp [solve, outer, core, toy]
 example : residualCount (solve toy 10 (0, 0)).trace = 4 := by
   simp [solve, outer, core, toy, residualCount]
+/-- the hypotheses of `solve_true_after_bad` are satisfiable: a run that succeeds after a failed evaluation -/
+example : ∃ a b ev, (solve toy 10 (0, 0)).trace = a ++ ev :: b ∧ Event.isBad toy ev ∧
+    (solve toy 10 (0, 0)).ret = true := by
+  refine ⟨[.begin, .newEstimate 0 (0, 0), .residual 0 true (0, 0) (0, 3), .norm 3, .stdIter 3, .conv false,
+    .correction 0 true (0, 3), .newCorrection (0, 3), .newEstimate 0 (1, 3)], ?_, .residual 1 false (1, 3) (1, 2), ?_, ?_, ?_⟩
+  rotate_left
+  · simp [solve, outer, core, toy]; rfl
+  · simp [Event.isBad]
+  · simp [solve, outer, core, toy]
 
 end TfelVerif.C08.Props
